@@ -3,11 +3,15 @@ package main
 import (
 	"encoding/json"
 	"fmt"
+	"sort"
+	"sync/atomic"
 	"time"
 
 	"github.com/anthdm/hollywood/actor"
 	"github.com/anthdm/hollywood/remote"
 	"google.golang.org/protobuf/proto"
+	"google.golang.org/protobuf/reflect/protoreflect"
+	"google.golang.org/protobuf/reflect/protoregistry"
 )
 
 // peerCase: a network peer addresses a well-formed envelope (a registered protobuf type, valid
@@ -24,7 +28,8 @@ import (
 type peerCase struct {
 	Target string `json:"target"`
 	Msg    string `json:"msg"` // "pid" | "test"
-	N      int    `json:"n"`   // how many messages in the envelope
+	N      int    `json:"n"`   // how many messages in the envelope ("streams": how many inbound streams at once)
+	Rounds int    `json:"rounds,omitempty"`
 }
 
 type peerObs struct {
@@ -43,6 +48,9 @@ func runPeer(raw json.RawMessage) (any, error) {
 		return nil, err
 	}
 	defer r.Stop()
+	if c.Target == "streams" {
+		return runStreams(e, c)
+	}
 	var target *actor.PID
 	switch c.Target {
 	case "writer":
@@ -89,6 +97,72 @@ func runPeer(raw json.RawMessage) (any, error) {
 		time.Sleep(time.Millisecond)
 	}
 	time.Sleep(150 * time.Millisecond)
+	return obs, nil
+}
+
+// runStreams: c.N peers open their streams to a node that has just come up (a fresh stream
+// reader per round, exactly what Remote.Start builds) at the same moment; each stream carries
+// one valid envelope with one (empty, hence decodable) message of every protobuf message type
+// linked into this binary, addressed to a user actor.  Every message must arrive and the node
+// must survive.
+func runStreams(e *actor.Engine, c peerCase) (any, error) {
+	var names []string
+	protoregistry.GlobalTypes.RangeMessages(func(mt protoreflect.MessageType) bool {
+		// an empty payload must decode (proto2 messages with required fields do not)
+		if proto.Unmarshal(nil, mt.New().Interface()) == nil {
+			names = append(names, string(mt.Descriptor().FullName()))
+		}
+		return true
+	})
+	sort.Strings(names)
+	var got atomic.Int64
+	sink := e.SpawnFunc(func(ctx *actor.Context) {
+		switch ctx.Message().(type) {
+		case actor.Initialized, actor.Started, actor.Stopped:
+		default:
+			got.Add(1)
+		}
+	}, "user", actor.WithID("sink"))
+	if c.N < 2 {
+		c.N = 2
+	}
+	if c.Rounds < 1 {
+		c.Rounds = 1
+	}
+	wires := make([][][]byte, c.N)
+	for i := range wires {
+		// each peer lists the type names in an order of its own
+		env := &remote.Envelope{Targets: []*actor.PID{sink}}
+		for j := range names {
+			env.TypeNames = append(env.TypeNames, names[(j+i*7)%len(names)])
+			env.Messages = append(env.Messages, &remote.Message{TypeNameIndex: int32(j), TargetIndex: 0, SenderIndex: -1})
+		}
+		w, err := env.MarshalVT()
+		if err != nil {
+			return nil, err
+		}
+		wires[i] = [][]byte{w}
+	}
+	obs := peerObs{Outcome: "ok"}
+	want := int64(0)
+	for r := 0; r < c.Rounds && obs.Outcome == "ok"; r++ {
+		errs, pv := remote.VerifReaderReceiveConcurrent(e, wires)
+		want += int64(c.N * len(names))
+		if pv != nil {
+			obs.Outcome, obs.Note = "panic", fmt.Sprint(pv)
+		}
+		for _, err := range errs {
+			if err != nil && obs.Outcome == "ok" {
+				obs.Outcome, obs.Note = "error", err.Error()
+			}
+		}
+	}
+	for i := 0; i < 3000 && got.Load() < want && obs.Outcome == "ok"; i++ {
+		time.Sleep(time.Millisecond)
+	}
+	if obs.Outcome == "ok" && got.Load() != want {
+		obs.Outcome, obs.Note = "panic", fmt.Sprintf("%d of %d valid messages delivered", got.Load(), want)
+	}
 	return obs, nil
 }
 
